@@ -373,6 +373,13 @@ func genGroup(r *rand.Rand, ns *nameSpace, nsPrefix, delim string, depth int, no
 			g.Groups = append(g.Groups, sg)
 		}
 	}
+	if chance(r, 0.06) {
+		// a struct field marked no-flag whose own fields look like options: none of them exists for the parser
+		ng := &GroupNode{Desc: pick(r, []string{"", "Skipped"})}
+		ng.Opts = append(ng.Opts, &OptNode{Long: "nf-skipped", Short: "N", Kind: "flag", VType: "bool"},
+			&OptNode{Long: "nf-value", Kind: "scalar", VType: "string", Defaults: []string{"x"}})
+		g.NoFlag = append(g.NoFlag, ng)
+	}
 	return g
 }
 
@@ -857,7 +864,8 @@ func perturb(r *rand.Rand, argv []string, scope []scopeOpt, t *Tree) []string {
 		at = r.Intn(len(argv))
 		return ins(argv[at])
 	case 5:
-		return ins(pick(r, []string{"", "-", "---x", "--=", "-=", "-=x", "word", "add", "\xff\xfe", "-\xff", "--\xff=1", "--help", "-h", "--100%sure", "-%", "%v", "--%d=%s"}))
+		return ins(pick(r, []string{"", "-", "---x", "--=", "-=", "-=x", "word", "add", "\xff\xfe", "-\xff", "--\xff=1", "--help", "-h", "--100%sure", "-%", "%v", "--%d=%s",
+			"--nf-skipped", "-N", "--nf-value=1", "--nf-value"}))
 	case 6: // command word of some other level
 		return ins(pick(r, cmdPool))
 	case 7: // a value-less option at the end
